@@ -55,12 +55,19 @@ class StubServer:
         return (self.serving,)
 
 
+def make_server(pool):
+    """The real (not started) control server object; its listening socket is the only stub."""
+    srv = TCPControlServer(pool, host="mem", port=0)
+    srv._server = StubServer()
+    return srv
+
+
 class Session:
-    def __init__(self, loop, pool, width=80, name="sess", handshake=True):
+    def __init__(self, loop, pool, width=80, name="sess", handshake=True, srv=None):
         self.loop = loop
         self.pool = pool
-        self.srv = TCPControlServer(pool, host="mem", port=0)
-        self.srv._server = StubServer()
+        # sessions of one pool are served by ONE server object, as in a real deployment
+        self.srv = srv if srv is not None else make_server(pool)
         self.reader = asyncio.StreamReader(loop=loop)
         self.writer = Writer()
         self.task = loop.create_task(self.srv._client_connected_cb(self.reader, self.writer), name=name)
